@@ -82,7 +82,7 @@ func genDirCase(t *rapid.T) *DirCase {
 	n := rapid.IntRange(1, ev.Pick(10, 12)).Draw(t, "nEntries")
 	used := map[string]bool{}
 	for i := 0; i < n; i++ {
-		kind := rapid.SampledFrom([]string{"annotated", "annotated", "annotated", "plain", "unexpected", "unexpected", "broken", "broken", "nongo", "subdir", "nongo-valid", "dotfile"}).Draw(t, "entryKind")
+		kind := rapid.SampledFrom([]string{"annotated", "annotated", "annotated", "plain", "unexpected", "unexpected", "broken", "broken", "nongo", "subdir", "nongo-valid", "dotfile", "symlink"}).Draw(t, "entryKind")
 		prefix := rapid.SampledFrom([]string{"a", "m", "z", "0", "B"}).Draw(t, "sortPrefix") // bad files sort before, between and after good ones
 		name := fmt.Sprintf("%s%d_%s", prefix, i, kind)
 		e := DirEntry{Kind: kind}
@@ -115,6 +115,10 @@ func genDirCase(t *rapid.T) *DirCase {
 		case "nongo":
 			e.Name = name + rapid.SampledFrom([]string{".txt", ".proto", ".go.bak", ".gox", "", ".GO"}).Draw(t, "ext")
 			e.Text = "message Man {\n  string name = 1; // 姓名 @tag valid:\"required,to=1~3\"\n}\ntype X struct {\n\tA int `json:\"a\"` // @tag valid:\"x\"\n}\n"
+		case "symlink":
+			// a .go entry that is a symbolic link to an annotated file kept elsewhere: processed through the link
+			e.Name = name + ".pb.go"
+			e.Src = genSrcFile(t, e.Name, 1)
 		case "dotfile":
 			// hidden regular files (they sort before everything else) and hidden Go files
 			e.Kind = "nongo"
@@ -174,7 +178,17 @@ func checkDir(c *DirCase) (msg string, badBeforeGood bool) {
 			_ = os.Mkdir(p, 0o755)
 			p = filepath.Join(p, "inner.pb.go")
 		}
-		if err := os.WriteFile(p, []byte(txt), 0o644); err != nil {
+		if e.Kind == "symlink" {
+			real := filepath.Join(dir, "zz_realfiles.d")
+			_ = os.Mkdir(real, 0o755)
+			target := filepath.Join(real, e.Name+".real")
+			if err := os.WriteFile(target, []byte(txt), 0o644); err != nil {
+				return "harness: " + err.Error(), false
+			}
+			if err := os.Symlink(target, p); err != nil {
+				return "harness: " + err.Error(), false
+			}
+		} else if err := os.WriteFile(p, []byte(txt), 0o644); err != nil {
 			return "harness: " + err.Error(), false
 		}
 		files = append(files, orig{p, txt, spans, e})
